@@ -84,6 +84,7 @@ type Ctx struct {
 	AllocLimit int64
 	ufAxioms []*smt.Term
 	KnownOK  func(label, class string) bool
+	Thorough bool
 	LoopCut  bool // exceeding the unwinding bound prunes the path (stated cut) instead of failing
 	Trace    bool
 }
